@@ -1,6 +1,6 @@
 """C04 — non-key issuers are accepted only with an authority-backed session."""
 import vlib
-from props import _worlds
+from props import _worlds, _link
 
 RULE = 'full product: attested link {this,other,none} x attestation issuer {authority, delegate with valid chain, delegate with broken chain, stranger} x attestation resource {authority DID, other} x window {valid,expired,not yet} x position of the non-key issued token {0..3} x key resolver {absent, correct key, wrong key} = 864 worlds; thorough adds 6000 random ones with decoy attestations, attestation not first capability, parent proof caveats'
 
@@ -13,6 +13,8 @@ def check(run):
     stats = _worlds.run(run, env, "C04", extra_ties=())
     if stats is None:
         return
+    import os
+    _link.evaluate(run, os.path.join(run.wd, "cases"), "C04")
     _worlds.fill_cov(run, stats, RULE)
     run.cov["exhaustive"] = True
     run.assumptions += _ASSUME
@@ -20,7 +22,8 @@ def check(run):
 
 _ASSUME = [
     "symbolic signatures: the harness tells the model which key produced each token's signature over its current fields (construction knowledge)",
-    "links are numbered CIDs: SHA-256 collision freedom",
+    "links are numbered CIDs (worlds): SHA-256 collision freedom",
+    "link integrity: U l is the token whose bytes hash to l — a theorem over the store defined by the supplied blocks (coq/LinkIntegrity.v), tied to delegation.Data() on the disguise block lists with the digest instantiated by observed (bytes, sha2-256) pairs; digest length 32 and collision freedom are explicit hypotheses of C04_store_deterministic / C04_link_names_one_token only",
     "Hres: the proof resolver returns the delegation whose link was asked for",
     "caller-supplied functions (can-issue, checker, resolvers, parser, capability readers and Derives) are the mirrored Go/Gallina pairs of harness/world.go and coq/Check_Validator.v"]
 
